@@ -20,7 +20,7 @@ import vlib
 
 PKG = "internal/stats"
 FILES = ["zz_verif_common_test.go", "zz_verif_c09_test.go"]
-ACTIONS = ["Update", "Tick", "Flush", "Close", "Open", "SetLimit", "SetEnabled", "Clear", "Read"]
+ACTIONS = ["Update", "Tick", "Flush", "FlushFails", "Close", "Open", "SetLimit", "SetEnabled", "Clear", "Read"]
 _vec = re.compile(r'^<<"@@V", "(.*)">>$')
 
 
